@@ -1,12 +1,243 @@
-// placeholder, replaced below
+// Zipf generator scenario: C19 (generators are pure functions of parameters and engine).
+// The schedule clause is simulation material: K vthreads share one const generator, each with its own engine; in mode `plain`
+// every plain access of operator() to shared memory (the generator object, its CDF buffer, static storage) is a scheduling point.
+// The input-only clauses (equal parameters / copy / move give equal outputs, max < min throws) are evaluated on the same draws.
+#include <cstring>
+#include <random>
+#include <stdexcept>
+#include <string>
+#include <vector>
+
 #include "common.hpp"
-namespace sim {
-namespace {
-void generate(Program &, dsim::Config &, dsim::Rng &, dsim::Rng &, int, int) {}
-void entry(void *) {}
-std::string render(const Program &) { return ""; }
-std::string tags(const Program &, const char *) { return ""; }
-const char *const kNames[] = {nullptr};
+#include "dbgroup/random/zipf.hpp"
+
+namespace sim
+{
+namespace
+{
+using dbgroup::random::ApproxZipfDistribution;
+using dbgroup::random::ZipfDistribution;
+
+enum Probe : int { pSamples = 0, pSharedReads, pExact, pApprox, pThrowChecked, pLargeN, pProbes };
+const char *const kProbeNames[] = {"concurrent_samples_compared", "runs_with_interleaved_shared_reads", "exact_generator_runs", "approx_generator_runs",
+                                   "invalid_range_rejected", "runs_with_more_than_100_bins", nullptr};
+
+std::string g_prop;
+bool tagged(const char *tags) { return g_prop.empty() || strstr(tags, g_prop.c_str()) != nullptr; }
+uint64_t g_other = 0;
+#define ORACLE(tags, cls, ...)                      \
+  do {                                              \
+    if (tagged(tags)) {                             \
+      char _c[160];                                 \
+      snprintf(_c, sizeof(_c), "%s %s", tags, cls); \
+      dsim::fail(_c, __VA_ARGS__);                  \
+    } else {                                        \
+      g_other++;                                    \
+    }                                               \
+  } while (0)
+
+// params: [class (0 exact, 1 approx), integer type 0..3, min, max, alpha*1000]; thread t: op {a = engine seed, b = samples}
+template <class Gen, class Int>
+struct Run {
+  const Gen *gen = nullptr;
+  std::vector<std::vector<Int>> solo, got;
+  const Program *prog = nullptr;
+
+  struct Arg {
+    Run *r;
+    int t;
+  };
+  static void sampler(void *p)
+  {
+    auto *a = static_cast<Arg *>(p);
+    const Op &o = a->r->prog->threads[static_cast<size_t>(a->t)][0];
+    std::mt19937_64 eng{static_cast<uint64_t>(o.a)};  // on this vthread's stack: private
+    Int buf[64];
+    const int n = static_cast<int>(o.b > 64 ? 64 : o.b);
+    for (int i = 0; i < n; ++i) {
+      dsim::set_pos(i + 1);
+      dsim::op_begin("operator()", 0);
+      buf[i] = (*a->r->gen)(eng);
+      dsim::op_end();
+    }
+    a->r->got[static_cast<size_t>(a->t)].assign(buf, buf + n);
+  }
+
+  void go(const Program &p, Int mn, Int mx, double alpha)
+  {
+    prog = &p;
+    Gen *g = new Gen{mn, mx, alpha};
+    gen = g;
+    const size_t K = p.threads.size();
+    solo.resize(K);
+    got.resize(K);
+    // sequences each engine yields alone + input-only clauses on the same draws
+    {
+      dsim::Observer ob(1ull << 40);
+      Gen same{mn, mx, alpha};
+      Gen copy{*g};
+      Gen tmp{*g};
+      Gen moved{std::move(tmp)};
+      for (size_t t = 0; t < K; ++t) {
+        const Op &o = p.threads[t][0];
+        const int n = static_cast<int>(o.b > 64 ? 64 : o.b);
+        std::mt19937_64 e1{static_cast<uint64_t>(o.a)}, e2{static_cast<uint64_t>(o.a)}, e3{static_cast<uint64_t>(o.a)}, e4{static_cast<uint64_t>(o.a)};
+        for (int i = 0; i < n; ++i) {
+          const Int v = (*g)(e1);
+          solo[t].push_back(v);
+          const Int v2 = same(e2), v3 = copy(e3), v4 = moved(e4);
+          if (v2 != v || v3 != v || v4 != v) {
+            ORACLE("[C19]", "equal-generators-differ", " :: sample %d of engine seed %ld: original %lld, equal parameters %lld, copy %lld, moved %lld", i,
+                   static_cast<long>(o.a), static_cast<long long>(v), static_cast<long long>(v2), static_cast<long long>(v3), static_cast<long long>(v4));
+          }
+        }
+      }
+      if (mx > mn) {
+        bool thrown = false;
+        try {
+          Gen bad{mx, mn, alpha};
+          (void)bad;
+        } catch (const std::exception &) {
+          thrown = true;
+        }
+        dsim::probe(pThrowChecked);
+        if (!thrown) ORACLE("[C19]", "invalid-range-accepted", " :: construction with max < min (%lld, %lld) did not throw", static_cast<long long>(mx), static_cast<long long>(mn));
+      }
+    }
+    // byte image of the shared generator before the concurrent phase
+    std::vector<unsigned char> before(sizeof(Gen));
+    {
+      dsim::Observer ob;
+      std::memcpy(before.data(), static_cast<const void *>(g), sizeof(Gen));
+    }
+    dsim::watch_range(g, sizeof(Gen));
+    std::vector<Arg> args(K);
+    std::vector<int> ids(K);
+    for (size_t t = 0; t < K; ++t) {
+      args[t] = Arg{this, static_cast<int>(t)};
+      ids[t] = dsim::spawn(sampler, &args[t], "sampler");
+    }
+    for (size_t t = 0; t < K; ++t) dsim::join(ids[t]);
+    {
+      dsim::Observer ob;
+      if (std::memcmp(before.data(), static_cast<const void *>(g), sizeof(Gen)) != 0 || dsim::watched_plain_writes() != 0) {
+        ORACLE("[C19]", "generator-modified-by-sampling", " :: the shared const generator object was written %lu time(s) while threads sampled from it",
+               static_cast<unsigned long>(dsim::watched_plain_writes()));
+      }
+    }
+    for (size_t t = 0; t < K; ++t) {
+      for (size_t i = 0; i < solo[t].size(); ++i) {
+        dsim::probe(pSamples);
+        if (i >= got[t].size() || got[t][i] != solo[t][i]) {
+          ORACLE("[C19]", "shared-generator-sequence-differs", " :: thread %zu sample %zu is %lld when sharing the generator, %lld alone (engine seed %ld)", t, i,
+                 static_cast<long long>(i < got[t].size() ? got[t][i] : 0), static_cast<long long>(solo[t][i]), static_cast<long>(p.threads[t][0].a));
+          break;
+        }
+      }
+    }
+    dsim::probe(pSharedReads);
+    delete g;
+  }
+};
+
+template <class Int>
+void run_typed(const Program &p)
+{
+  const Int mn = static_cast<Int>(p.params[2]), mx = static_cast<Int>(p.params[3]);
+  const double alpha = static_cast<double>(p.params[4]) / 1000.0;
+  if (static_cast<uint64_t>(mx) - static_cast<uint64_t>(mn) >= 100) dsim::probe(pLargeN);
+  if (p.params[0] == 0) {
+    dsim::probe(pExact);
+    Run<ZipfDistribution<Int>, Int> r;
+    r.go(p, mn, mx, alpha);
+  } else {
+    dsim::probe(pApprox);
+    Run<ApproxZipfDistribution<Int>, Int> r;
+    r.go(p, mn, mx, alpha);
+  }
 }
-const Scenario kZipfScenario = {"zipf", generate, entry, render, tags, kNames, nullptr};
+
+void entry(void *)
+{
+  const Program &p = current_program();
+  g_other = 0;
+  switch (p.params[1]) {
+    case 0: run_typed<uint32_t>(p); break;
+    case 1: run_typed<uint64_t>(p); break;
+    case 2: run_typed<int32_t>(p); break;
+    default: run_typed<int64_t>(p); break;
+  }
 }
+
+void generate(Program &prog, dsim::Config &cfg, dsim::Rng &pr, dsim::Rng &cr, int, int)
+{
+  const int cls = static_cast<int>(pr.below(2));
+  const int ty = static_cast<int>(pr.below(4));
+  int64_t span;
+  switch (pr.below(6)) {
+    case 0: span = 0; break;
+    case 1: span = 1 + static_cast<int64_t>(pr.below(8)); break;
+    case 2: span = 98 + static_cast<int64_t>(pr.below(4)); break;  // both sides of the 100-bin exact/approximate switch
+    case 3: span = 1 + static_cast<int64_t>(pr.below(400)); break;
+    case 4: span = cls == 1 ? 1000 + static_cast<int64_t>(pr.below(1000000)) : 200 + static_cast<int64_t>(pr.below(3000)); break;
+    default: span = 10 + static_cast<int64_t>(pr.below(90)); break;
+  }
+  int64_t mn;
+  const bool is_signed = ty >= 2;
+  switch (pr.below(4)) {
+    case 0: mn = 0; break;
+    case 1: mn = is_signed ? -static_cast<int64_t>(pr.below(1000)) : static_cast<int64_t>(pr.below(1000)); break;
+    case 2: mn = is_signed ? -span / 2 : 1; break;
+    default: mn = static_cast<int64_t>(pr.below(100000)); break;
+  }
+  static const int kAlpha[] = {0, 500, 990, 1000, 1010, 1500, 2000, 3000};
+  const int64_t alpha = pr.chance(1, 3) ? static_cast<int64_t>(pr.below(3001)) : kAlpha[pr.below(8)];
+  prog.params = {cls, ty, mn, mn + span, alpha};
+  const int K = 2 + static_cast<int>(pr.below(3));
+  prog.threads.clear();
+  for (int t = 0; t < K; ++t) {
+    Op o;
+    o.a = static_cast<int64_t>(pr.chance(1, 4) ? 42 : pr.below(1u << 30));  // sometimes all threads use equal engine seeds
+    o.b = 2 + static_cast<int64_t>(pr.below(10));
+    prog.threads.push_back({o});
+  }
+  cfg.plain_sched = true;
+  const uint64_t s = cr.below(100);
+  if (s < 45) cfg.strategy = dsim::kRandom;
+  else if (s < 75) cfg.strategy = dsim::kSticky;
+  else cfg.strategy = dsim::kPCT;
+  cfg.sticky_percent = 30 + static_cast<int>(cr.below(65));
+  cfg.pct_depth = 1 + static_cast<int>(cr.below(3));
+  cfg.pct_len = 400;
+  cfg.spin_bound = 1000000;
+  cfg.max_steps = 400000;
+}
+
+std::string render(const Program &p)
+{
+  static const char *ty[] = {"uint32_t", "uint64_t", "int32_t", "int64_t"};
+  std::string s = std::string(p.params[0] == 0 ? "ZipfDistribution<" : "ApproxZipfDistribution<") + ty[p.params[1] & 3] + ">(" + std::to_string(p.params[2]) +
+                  ", " + std::to_string(p.params[3]) + ", alpha=" + std::to_string(static_cast<double>(p.params[4]) / 1000.0) + ") shared by " +
+                  std::to_string(p.threads.size()) + " threads\n";
+  for (size_t t = 0; t < p.threads.size(); ++t)
+    s += "  T" + std::to_string(t + 1) + ": mt19937_64(" + std::to_string(p.threads[t][0].a) + "), " + std::to_string(p.threads[t][0].b) + " samples\n";
+  return s;
+}
+
+std::string tags_for_runtime_class(const Program &, const char *cls)
+{
+  const std::string c = cls;
+  if (c.rfind("crash/", 0) == 0 || c.rfind("heap/", 0) == 0) return "[C19]";
+  return "[inconclusive]";
+}
+
+void process_init()
+{
+  const char *e = getenv("VERIF_PROP");
+  g_prop = e ? std::string("[") + e + "]" : "";
+}
+}  // namespace
+
+const Scenario kZipfScenario = {"zipf", generate, entry, render, tags_for_runtime_class, kProbeNames, process_init};
+
+}  // namespace sim
